@@ -24,14 +24,6 @@ def harnesses(tier):
                           ["yash_env::semantics::command::search::classify"],
                           "command search order: slash => external without lookup; special built-in > function > other built-in > PATH",
                           timeout=1200, cover_group="c02_search", recursion_bounds=core.LOCATION_RECURSION))
-    if tier == "thorough" or True:
-        for nm, what in (("external", "no built-in of that name"), ("substitutive", "a substitutive built-in"), ("regular", "a mandatory built-in")):
-            hs.append(Harness("c02_search_path_" + nm,
-                              "name 'x', PATH='/b:/c' (concrete), %s, availability symbolic; which of /b/x, /c/x is executable: symbolic" % what,
-                              ["yash_env::semantics::command::search::search", "yash_env::semantics::command::search::search_path",
-                               "yash_env::semantics::command::search::resolve_builtin"],
-                              "PATH searched left to right; NotFound iff no candidate; substitutive built-in usable iff its external "
-                              "counterpart exists; non-portable built-ins refused", timeout=1500, cover_group="c02_search_path"))
     return hs
 
 
